@@ -112,3 +112,7 @@ sexp sexp_bignum_fxsub (sexp ctx, sexp a, sexp_uint_t b) {
 #ifdef STUB_sexp_bignum_bit_op
 sexp sexp_bignum_bit_op (sexp ctx, sexp x, sexp y, int op) { __CPROVER_assert(0, "dispatch.fixnum_only: two fixnum operands never reach the bignum arm"); __CPROVER_assume(0); return x; }
 #endif
+#ifdef STUB_HANDOVER_sexp_bignum_hi
+/* hand-over point of the fixnum path of arithmetic-shift to its bignum path: ends the path */
+sexp_uint_t sexp_bignum_hi (sexp a) { __CPROVER_assume(0); return 1; }
+#endif
